@@ -276,6 +276,81 @@ def seed_output(ws, bid, pkgdir, profile, seed, fresh_copy):
                 open(dst, "w").write(f"# written by an older run: {rel}\n")
 
 
+def command_cases(ctx, cargo_libcnb, env, base):
+    """every (dependency DAG, placement of the buildpacks in possibly nested directories, directory the
+    command runs in) case of Packaging.tla's command model, on composite-only workspaces (nothing compiles)"""
+    from concurrent.futures import ThreadPoolExecutor
+    r = vlib.tlc(ctx, "Packaging.tla", "Packaging_command.cfg", "command", workers=1, env={"JAVA_TOOL_OPTIONS": "-Xss64m"}, timeout=900)
+    if not r["ok"]:
+        if any("Assumption" in e for e in r["errors"]):
+            ctx.violation("spec:command selection law", "first-path-match-else-root differs from the declarative selection inside the specification", {"tlc_output": r["out"]}, "tlc")
+            return [], 0
+        raise vlib.ToolError(f"TLC failed on the command model: {r['errors'][:2]}")
+    cases = []
+    for line in open(r["out"], errors="replace"):
+        if line.startswith('<<"CV", "'):
+            cases.append(json.loads(line[len('<<"CV", "'):].rstrip("\n")[:-3].replace('\\"', '"').replace("\\\\", "\\")))
+    os.remove(r["out"])
+    if len(cases) < 2500:
+        raise vlib.ToolError(f"the command model emitted only {len(cases)} cases")
+    root0 = os.path.join(base, "cmd")
+    os.makedirs(root0, exist_ok=True)
+
+    def one(ic):
+        i, c = ic
+        root = os.path.join(root0, str(i))
+        for d in ("docs", "d1/in", "d2"):
+            os.makedirs(os.path.join(root, d))
+        open(os.path.join(root, "Cargo.toml"), "w").write('[workspace]\nresolver = "2"\nmembers = []\n')
+        open(os.path.join(root, ".ignore"), "w").write("packaged/\n")
+        for n, d in c["place"].items():
+            p = os.path.join(root, d)
+            os.makedirs(p, exist_ok=True)
+            open(os.path.join(p, "buildpack.toml"), "w").write(
+                f'api = "0.10"\n\n[buildpack]\nid = "v/{n}"\nversion = "1.0.0"\n\n[[order]]\n[[order.group]]\nid = "x/y"\nversion = "1.0.0"\n')
+            open(os.path.join(p, "package.toml"), "w").write(
+                '[buildpack]\nuri = "."\n' + "".join(f'\n[[dependencies]]\nuri = "libcnb:v/{x}"\n' for x in c["deps"][n]))
+        p = sh([cargo_libcnb, "libcnb", "package", "--target", TARGET, "--no-cross-compile-assistance"], cwd=os.path.join(root, c["cwd"]), env=env)
+        out = os.path.join(root, "packaged", TARGET, "debug")
+        written = sorted(x[2:] for x in os.listdir(out)) if os.path.isdir(out) else []
+        problems = []
+        sel, want = sorted(c["selected"]), sorted(c["written"])
+        if not sel:
+            if p.returncode == 0 or written:
+                problems.append(f"nothing is selected from {c['cwd']!r} but the command exited {p.returncode} and wrote {written}")
+        else:
+            if p.returncode != 0:
+                problems.append(f"the command failed: {p.stderr[-300:]}")
+            else:
+                printed = sorted(os.path.basename(x)[2:] for x in p.stdout.split())
+                if printed != sel:
+                    problems.append(f"printed {printed}, selected {sel}")
+                if written != want:
+                    problems.append(f"wrote output directories for {written}, the selection and its dependencies are {want}")
+                for n in written:
+                    try:
+                        t = tomllib.load(open(os.path.join(out, "v_" + n, "package.toml"), "rb"))
+                        got = [d.get("uri") for d in t.get("dependencies", [])]
+                        exp = [os.path.join(out, "v_" + x) for x in c["deps"].get(n, [])]
+                        if got != exp:
+                            problems.append(f"package.toml of {n}: dependencies {got}, expected {exp}")
+                    except Exception as e:  # noqa
+                        problems.append(f"package.toml of {n} unreadable: {e}")
+        order = [m.group(1)[2:] for m in re.finditer(r"\[\d+/\d+\] Building (\S+)", p.stderr)]
+        shutil.rmtree(root, ignore_errors=True)
+        return c, problems, order
+
+    events = []
+    with ThreadPoolExecutor(max_workers=16) as ex:
+        for c, problems, order in ex.map(one, enumerate(cases)):
+            for e in problems:
+                ctx.violation("command selection: " + e.split(",")[0].split(":")[0][:60], f"cwd {c['cwd']!r}, placement {c['place']}, deps {c['deps']}: {e}", {"case": c}, "cargo_libcnb")
+            if c["selected"] and order:
+                events.append({"kind": "order", "deps": c["deps"], "roots": sorted(c["selected"]), "order": order, "ok": True})
+    ctx.cov["command_cases"] = len(cases)
+    return events, len(cases)
+
+
 def run(ctx):
     vlib.cargo_build(ctx)
     quick = ctx.tier == "quick"
@@ -316,6 +391,9 @@ def run(ctx):
     def progress_order(stderr):
         return [m.group(1) for m in re.finditer(r"\[\d+/\d+\] Building (\S+)", stderr)]
 
+    cmd_events, n_cmd = command_cases(ctx, cargo_libcnb, env, base)
+    order_events += cmd_events
+    evaluations += n_cmd
     workspaces = [(2, 1), (3, 2)] if quick else [(1, 0), (2, 1), (3, 2), (4, 3), (5, 3), (3, 1), (2, 2), (5, 2)]
     for wi, (nc, nm) in enumerate(workspaces):
         ws = Workspace(os.path.join(base, f"ws{wi}"), rng, nc, nm)
